@@ -15,6 +15,9 @@ pub fn check_relations(context: &CheckerContext) -> Result<(), Vec<GenericError>
 fn check_relations_assignment(context: &CheckerContext) -> GenericResult<()> {
     let reserved_ids = vec!["departure", "arrival", "break", "reload"].into_iter().collect::<HashSet<_>>();
 
+    // NOTE reserved ids (e.g. departure) are present in any tour
+    let is_customer_job = |id: &String| !reserved_ids.contains(id.as_str());
+
     (0_usize..)
         .zip(context.problem.plan.relations.as_ref().map_or([].iter(), |relations| relations.iter()))
         .try_for_each(|(idx, relation)| {
@@ -29,7 +32,7 @@ fn check_relations_assignment(context: &CheckerContext) -> GenericResult<()> {
                             .solution
                             .tours
                             .iter()
-                            .any(|tour| get_activity_ids(tour).iter().any(|id| relation.jobs.contains(id)));
+                            .any(|tour| get_activity_ids(tour).iter().any(|id| is_customer_job(id) && relation.jobs.contains(id)));
 
                         if is_served_by_other {
                             Err(format!("relation {idx} has jobs assigned to another tour").into())
@@ -52,7 +55,8 @@ fn check_relations_assignment(context: &CheckerContext) -> GenericResult<()> {
                         + job.replacements.as_ref().map_or(0, |t| t.len())
                         + job.services.as_ref().map_or(0, |t| t.len()))
                 } else if reserved_ids.contains(job_id.as_str()) {
-                    Ok(acc + 1)
+                    // NOTE a reserved id (e.g. reload) can be used multiple times: count it by occurrence
+                    Ok(acc + relation.jobs.iter().filter(|id| *id == *job_id).count())
                 } else {
                     Err(format!("relation has unknown job id: {job_id}"))
                 }
@@ -77,7 +81,10 @@ fn check_relations_assignment(context: &CheckerContext) -> GenericResult<()> {
                 }
                 RelationType::Sequence => {
                     let ids = activity_ids.iter().filter(|id| relation_ids.contains(id)).cloned().collect::<Vec<_>>();
-                    if ids != relation.jobs {
+                    // NOTE the tour can have more activities with a reserved id (e.g. reload) than the relation lists
+                    let has_reserved = relation.jobs.iter().any(|id| reserved_ids.contains(id.as_str()));
+                    let is_same = if has_reserved { is_subsequence(&relation.jobs, &ids) } else { ids == relation.jobs };
+                    if !is_same {
                         Err(format!(
                             "relation {} does not follow sequence rule: expected {:?}, got {:?}, common: {:?}",
                             idx, relation.jobs, activity_ids, ids
@@ -93,7 +100,7 @@ fn check_relations_assignment(context: &CheckerContext) -> GenericResult<()> {
                         .tours
                         .iter()
                         .filter(|other| tour.vehicle_id != other.vehicle_id)
-                        .any(|tour| get_activity_ids(tour).iter().any(|id| relation_ids.contains(id)));
+                        .any(|tour| get_activity_ids(tour).iter().any(|id| is_customer_job(id) && relation_ids.contains(id)));
 
                     if has_wrong_assignment {
                         Err(format!("relation {idx} has jobs assigned to another tour").into())
@@ -124,6 +131,11 @@ fn get_activity_ids(tour: &Tour) -> Vec<String> {
             stop.activities().iter().map(|a| a.job_id.clone())
         })
         .collect()
+}
+
+fn is_subsequence<T: PartialEq>(needle: &[T], haystack: &[T]) -> bool {
+    let mut haystack = haystack.iter();
+    needle.iter().all(|item| haystack.any(|other| other == item))
 }
 
 fn intersection<T>(left: Vec<T>, right: Vec<T>) -> Vec<T>
